@@ -1082,6 +1082,18 @@ def gen_graph(rng, implicit_assoc_p=0.0):
         ns = rng.choice(g.namespaces) if rng.random() < 0.35 else \
             g.namespaces[0]
         g.nodes.append((ns, rng.choice(g.node_classes), 'n%d' % i))
+    # "twins": nodes of the same class with the same key values in different
+    # namespaces (their paths differ in the namespace only)
+    g.twins = []
+    if len(g.namespaces) > 1 and rng.random() < 0.6:
+        for _ in range(rng.randint(1, 3)):
+            i = rng.randrange(len(g.nodes))
+            ns, nc, nid = g.nodes[i]
+            other = [n for n in g.namespaces if n != ns]
+            if not any(t[1] == nc and t[2] == nid and t[0] == other[0]
+                       for t in g.nodes):
+                g.nodes.append((other[0], nc, nid))
+                g.twins.append((i, len(g.nodes) - 1))
     return g
 
 
@@ -1116,7 +1128,20 @@ def gen_assoc_instances(rng, g, n=None, allow_null=False, start=0):
                 ok = False
                 break
             r = rng.random()
-            if r < 0.35:
+            twins = [t for t in getattr(g, 'twins', [])
+                     if refs and any(v in t for v in refs.values()
+                                     if v is not None)]
+            tw = [x for t in twins for x in t
+                  if x in cand and x not in refs.values()]
+            if tw and rng.random() < 0.7:
+                # link a node with its twin in the other namespace
+                refs[ln] = rng.choice(tw)
+            elif getattr(g, 'twins', None) and not refs and \
+                    rng.random() < 0.3 and \
+                    [x for t in g.twins for x in t if x in cand]:
+                refs[ln] = rng.choice([x for t in g.twins for x in t
+                                       if x in cand])
+            elif r < 0.35:
                 hc = [h for h in hubs if h in cand]
                 refs[ln] = rng.choice(hc or cand)
             elif r < 0.5 and refs and \
